@@ -159,6 +159,31 @@ GRAPHS = [
         D("WC", "typedef W<char> WC;", needs=["W"]),
         D("H3", "struct H3 { WC c; H *p; };", needs=["WC"], weak=["H"]),
     ], []),
+    # loosely constrained graphs: many valid orders (up to 6! = 720), pointer relations only
+    ("c-six-pointer-web", "c", [
+        D("P1", "struct P1 { struct P2 *a; struct P6 *b; float f; };", weak=["P2", "P6"], fwd="struct P1;"),
+        D("P2", "struct P2 { struct P3 *a; struct P1 *b; int arr[40]; };", weak=["P3", "P1"], fwd="struct P2;"),
+        D("P3", "struct P3 { union P4 *a; double d; };", weak=["P4"], fwd="struct P3;"),
+        D("P4", "union P4 { struct P5 *a; struct P1 *b; };", weak=["P5", "P1"], fwd="union P4;"),
+        D("P5", "struct P5 { union P4 *a; struct P2 *b; void (*cb)(struct P6 *); };", weak=["P4", "P2", "P6"], fwd="struct P5;"),
+        D("P6", "struct P6 { struct P5 *a; char c; };", weak=["P5"], fwd="struct P6;"),
+    ], []),
+    ("cpp-six-class-web", "cpp", [
+        D("Q1", "struct Q1 { Q2 *a; Q6 *b; float f; virtual void v(); };", weak=["Q2", "Q6"], fwd="struct Q1;"),
+        D("Q2", "struct Q2 { Q3 *a; Q1 &r; ~Q2(); };", weak=["Q3", "Q1"], fwd="struct Q2;"),
+        D("Q3", "template <typename T> struct Q3T { T *p; T *arr[2]; }; struct Q3 { Q3T<Q4> t; double d; };", weak=["Q4"], fwd="struct Q3;"),
+        D("Q4", "struct Q4 { Q5 *a; int x; };", weak=["Q5"], fwd="struct Q4;"),
+        D("Q5", "struct Q5 { Q4 *a; Q2 *b; };", weak=["Q4", "Q2"], fwd="struct Q5;"),
+        D("Q6", "struct Q6 { Q5 *a; char c[33]; };", weak=["Q5"], fwd="struct Q6;"),
+    ], []),
+    ("c-five-mixed", "c", [
+        D("R1", "struct R1 { float f; };", fwd="struct R1;"),
+        D("R2", "struct R2 { struct R1 r; struct R5 *p; };", needs=["R1"], weak=["R5"], fwd="struct R2;"),
+        D("R3", "typedef struct R2 R3;", weak=["R2"]),
+        D("R4", "struct R4 { R3 *p; int (*f)(struct R1); };", needs=["R3", "R1"], fwd="struct R4;"),
+        D("R5", "struct R5 { struct R4 *q; struct R1 one[2]; };", weak=["R4"], needs=["R1"], fwd="struct R5;"),
+        D("R6", "extern struct R5 *r6_var; struct R2 *r6_fn(struct R4 *);", weak=["R5", "R2", "R4"]),
+    ], []),
     ("cpp-type-param-array", "cpp", [
         D("TA", "template <typename T> struct TA { T data[8]; };"),
         D("TB", "template <typename T> struct TB { TA<T> inner; int n; };", needs=["TA"]),
@@ -319,6 +344,8 @@ def run(ck, only=None):
         gid, perm, src = meta[jid]
         det = {"graph": gid, "perm": list(perm)}
         case = f"graph={gid} order={list(perm)}"
+        if r["status"] == "err" and r.get("err_kind") == "ClangDiagnostic":
+            raise common.Machinery(f"C07 generator produced a header clang rejects ({gid} {list(perm)}): {r.get('err')[:300]}")
         if r["status"] != "ok":
             ck.violation(case + " generation-failed", dict(det, why=f"{r['status']} {r.get('err', r.get('panic'))}"[:300], src=src))
             continue
